@@ -13,14 +13,14 @@ Fixpoint rg_owns (l : list (N * list N)) (p : N) : list N :=
   | (q, ts) :: r => if N.eqb q p then ts else rg_owns r p
   end.
 
-Fixpoint rg_spawns (l : list (N * list (N * bool))) (p : N) : list (N * bool) :=
+Fixpoint rg_spawns (l : list (N * list dact)) (p : N) : list dact :=
   match l with
   | nil => nil
   | (q, ts) :: r => if N.eqb q p then ts else rg_spawns r p
   end.
 
 Definition rg_init : gc := gc_init.
-Definition rg_step (ow : list (N * list N)) (sp : list (N * list (N * bool))) (rem_fin null_first : bool) :=
+Definition rg_step (ow : list (N * list N)) (sp : list (N * list dact)) (rem_fin null_first : bool) :=
   gc_step rg_hash gc_swap gc_primes gc_load_num gc_load_den (rg_owns ow) (rg_spawns sp) rem_fin null_first.
 Definition rg_mem := gc_mem rg_hash.
 Definition rg_rem_fin := gc_rem_fin.
